@@ -344,12 +344,15 @@ func c13(x *mon.Ctx) {
 	// a SEQUENCE): honest ones in any order are exact; a wrongly typed PPID / PCE-ID / FMSPC / TCB placed BEHIND a decodable
 	// element of the same size is an error, never that element's value
 	{
+		sgxType := 0
 		extra := func(p *world.Platform) [][]byte {
+			sgxType++ // Intel's profile: Standard (0), Scalable (1), Scalable with Integrity (2)
 			inst := make([]byte, 16)
 			for i := range inst {
 				inst[i] = 0xC0 | byte(i)
 			}
 			return [][]byte{
+				world.Seq(world.OID(5), world.TLV(0x0a, []byte{byte(sgxType % 3)})),
 				world.Seq(world.OID(6), world.Octets(inst)),
 				world.Seq(world.OID(7), world.Seq(world.Seq(world.OID(7, 1), world.TLV(1, []byte{0xff})), world.Seq(world.OID(7, 2), world.TLV(1, []byte{0})), world.Seq(world.OID(7, 3), world.TLV(1, []byte{0xff})))),
 				world.Seq(world.OID(8), world.Octets([]byte{0xAA, 0xBB})),       // unknown, the size of a PCE-ID
